@@ -1137,3 +1137,147 @@ def ping_task_rules(A, fl, rule):
                 behaviour='the heartbeat stops (no PING, no deadline): a silent peer is never '
                           'dropped for ping timeout')
     A.floor(rule, '%s _send_ping pinging paths' % fl['name'], n_ping, 1)
+
+
+# ---------------------------------------------------------------------------------------
+# WHO-MAY rules: close sites, event sites, flag writers, table writers
+# ---------------------------------------------------------------------------------------
+def _homes(A, mods, ctx_of):
+    """callers map and home() over the given modules (helpers introduced after the reference
+    tree are attributed to the anchor functions they are reachable from)."""
+    anchors = A.anchors()
+    callers = {}
+    with A.resolver.flow_insensitive(), A.resolver.quiet():
+        for f in A.model.all_funcs():
+            if f.module.name not in mods:
+                continue
+            for n in own_nodes(f):
+                if isinstance(n, ast.Call):
+                    r = A.resolver.resolve(n, f, ctx_of(f))
+                    if r.kind == 'repo':
+                        for g, _ in r.funcs:
+                            callers.setdefault(g.qualname, set()).add(f.qualname)
+
+    def home(q, seen=()):
+        if q in anchors or q in seen:
+            return {q}
+        cs = callers.get(q)
+        if not cs:
+            return {q}
+        out = set()
+        for c in cs:
+            out |= home(c, seen + (q,))
+        return out
+    return home
+
+
+def who_may_rules(A, fl, rule, parts=('close', 'events', 'flags', 'table')):
+    name = fl['name']
+    sock = A.model.cls(fl['socket'])
+    srv = A.model.cls(fl['server'])
+    smod, vmod = fl['smod'], fl['server'].split('.')[0]
+    mods = (smod, vmod, 'base_server', 'base_socket')
+
+    def ctx_of(f):
+        if f.cls is None:
+            return None
+        return sock if f.module.name in (smod, 'base_socket') else srv
+    home = _homes(A, mods, ctx_of)
+    S, V = fl['socket'], fl['server']
+    CLOSE_TABLE = {
+        S + '.receive': ('self.server.reason.CLIENT_DISCONNECT', 'False', 'True'),
+        S + '.check_ping_timeout': ('self.server.reason.PING_TIMEOUT', 'False', 'False'),
+        S + '.handle_get_request': ('self.server.reason.TRANSPORT_ERROR', 'False', None),
+        S + '._websocket_handler': ('self.server.reason.TRANSPORT_CLOSE', 'False', 'True'),
+        V + '.disconnect': ('self.reason.SERVER_DISCONNECT', None, None),
+        V + '.handle_request': ('self.reason.SERVER_DISCONNECT', 'False', None),
+    }
+    EVENT_HOME = {'disconnect': S + '.close', 'message': S + '.receive',
+                  'connect': V + '._handle_connect'}
+    FLAG_WRITERS = {
+        'closed': {S + '.close', 'base_socket.BaseSocket.__init__'},
+        'closing': {S + '.close', 'base_socket.BaseSocket.__init__'},
+        'upgrading': {S + '._websocket_handler', S + '._upgrade_websocket',
+                      'base_socket.BaseSocket.__init__'},
+        'upgraded': {S + '._websocket_handler', 'base_socket.BaseSocket.__init__'},
+        'connected': {S + '._websocket_handler', V + '._handle_connect',
+                      'base_socket.BaseSocket.__init__'},
+    }
+    TABLE_WRITERS = {V + '._handle_connect', 'base_server.BaseServer._get_socket',
+                     V + '.handle_request', V + '.disconnect', V + '._service_task',
+                     'base_server.BaseServer.__init__'}
+    n_close = n_ev = 0
+    with A.resolver.flow_insensitive(), A.resolver.quiet():
+        for f in A.model.all_funcs():
+            if f.module.name not in mods:
+                continue
+            hq = home(f.qualname)
+            for n in own_nodes(f):
+                if isinstance(n, ast.Call):
+                    r = A.resolver.resolve(n, f, ctx_of(f))
+                    if 'close' in parts and r.kind == 'repo' and r.is_func(S + '.close'):
+                        n_close += 1
+                        kw = {k.arg: txt(k.value) for k in n.keywords}
+                        for h in hq:
+                            ent = CLOSE_TABLE.get(h)
+                            if ent is None:
+                                A.violated(rule + '.close-sites', '%s: every place that ends a '
+                                           'session is one of the classified causes (%s closes '
+                                           'a session)' % (name, f.qualname), A.site(f, n),
+                                           key='%s-close-site:%s' % (name, h), detail=txt(n),
+                                           behaviour='a session is ended for an unclassified '
+                                                     'cause / with an arbitrary reason')
+                                continue
+                            ok = kw.get('reason') == ent[0] and \
+                                (ent[1] is None or kw.get('wait') == ent[1]) and \
+                                (ent[2] is None or kw.get('abort', 'False') == ent[2]) and \
+                                not n.args
+                            A.check(ok, rule + '.close-reason', '%s: %s ends the session with '
+                                    'reason %s%s' % (name, h.split('.')[-1], ent[0].split('.')[-1],
+                                                     ', without waiting' if ent[1] == 'False' else ''),
+                                    A.site(f, n), key='%s-close-reason:%s' % (name, h),
+                                    detail=txt(n),
+                                    behaviour='the disconnect reason does not name the cause, '
+                                              'or the caller blocks in close()')
+                    if 'events' in parts and r.kind == 'repo' and r.is_func(V + '._trigger_event') \
+                            and n.args and isinstance(n.args[0], ast.Constant):
+                        n_ev += 1
+                        evn = n.args[0].value
+                        A.check(evn in EVENT_HOME and hq == {EVENT_HOME[evn]}, rule + '.event-sites',
+                                "%s: the '%s' event is fired only from %s" %
+                                (name, evn, EVENT_HOME.get(evn, '?').split('.', 1)[-1]),
+                                A.site(f, n), key='%s-event-site:%s:%s' % (name, evn, sorted(hq)[0]),
+                                detail=txt(n),
+                                behaviour='an event is delivered twice / from a second place that '
+                                          'bypasses the once-only guard')
+                tgts = []
+                if isinstance(n, (ast.Assign, ast.AugAssign)):
+                    tgts = n.targets if isinstance(n, ast.Assign) else [n.target]
+                elif isinstance(n, ast.Delete):
+                    tgts = n.targets
+                for t in tgts:
+                    if 'flags' in parts and isinstance(t, ast.Attribute) and \
+                            t.attr in FLAG_WRITERS:
+                        A.check(hq <= FLAG_WRITERS[t.attr], rule + '.flag-writers',
+                                '%s: session flag %s is written only by %s' %
+                                (name, t.attr, ', '.join(sorted(x.split('.', 1)[-1]
+                                                                 for x in FLAG_WRITERS[t.attr]))),
+                                A.site(f, n), key='%s-flag-writer:%s:%s' % (name, t.attr,
+                                                                          sorted(hq)[0]),
+                                detail=ast.unparse(n),
+                                behaviour='the transport / liveness state of a session is changed '
+                                          'outside its state machine')
+                    base = t.value if isinstance(t, ast.Subscript) else t
+                    if 'table' in parts and txt(base) == 'self.sockets' and f.module.name != smod:
+                        A.check(hq <= TABLE_WRITERS, rule + '.table-writers',
+                                '%s: the session table is modified only by connect, lookup '
+                                'reaping, request reaping, disconnect and the sweep (%s)'
+                                % (name, f.qualname), A.site(f, n),
+                                key='%s-table-writer:%s' % (name, sorted(hq)[0]),
+                                detail=ast.unparse(n),
+                                behaviour='sessions appear in / vanish from the table outside '
+                                          'the lifecycle')
+    if 'close' in parts:
+        A.floor(rule, '%s close() call sites' % name, n_close, 6)
+    if 'events' in parts:
+        A.floor(rule, '%s _trigger_event call sites' % name, n_ev, 3)
